@@ -73,6 +73,14 @@ func c05Dispatch(c *Ctx, p *Prog) {
 		case *ssa.MakeClosure:
 			fn = x.Fn.(*ssa.Function)
 			mc = x
+			// a method value (e.extract): the closure is a synthetic bound-method wrapper; look at the method itself
+			if fn.Synthetic != "" {
+				if mo, ok := fn.Object().(*types.Func); ok {
+					if m := p.SSA.FuncValue(mo); m != nil {
+						fn = m
+					}
+				}
+			}
 		default:
 			continue
 		}
@@ -107,6 +115,12 @@ func c05Dispatch(c *Ctx, p *Prog) {
 						if mc != nil {
 							for _, bnd := range mc.Bindings {
 								if al, ok := bnd.(*ssa.Alloc); ok {
+									// a captured variable, or a field of the struct bound as a method value's receiver
+									for _, s2 := range storesInto(al) {
+										if s2.Val == bo {
+											okFlag = true
+										}
+									}
 									for _, r := range *al.Referrers() {
 										if s2, ok := r.(*ssa.Store); ok && s2.Val == bo {
 											okFlag = true
